@@ -39,7 +39,7 @@ OPS = ["write", "write", "write", "tb", "validate", "serialize", "flush", "reset
 
 
 def plan(tier, seed):
-    n = 48 if tier == "quick" else 600
+    n = 32 if tier == "quick" else 400
     specs = [{"part": "memory", "seed": seed, "i": i, "tier": tier} for i in range(n)]
     specs += [{"part": "filesched", "seed": seed, "i": i, "tier": tier} for i in range(8 if tier == "quick" else 60)]
     specs += [{"part": "filestress", "seed": seed, "i": i, "tier": tier} for i in range(6 if tier == "quick" else 36)]
@@ -54,7 +54,8 @@ class Flushable(Exception):
 
 
 def make_serializer(tag):
-    mt = MessageType("w%d" % tag, [Field("seq", (lambda v, tag=tag: "t%d:%s" % (tag, v)), ""), Field.for_types("tag", [int], "")], "")
+    mt = MessageType("w%d" % tag, [Field("seq", (lambda v, tag=tag: "t%d:%s" % (tag, v)), ""), Field("b", (lambda v, tag=tag: "t%d:%s" % (tag, v)), ""),
+                                   Field.for_types("tag", [int], "")], "")
     return mt._serializer
 
 
@@ -84,12 +85,12 @@ def memory_run(plan_, nthreads, oplists, counters):
             seq = 0
             for op in oplists[t]:
                 if op == "write":
-                    m = {"tag": t, "seq": seq, "message_type": "w%d" % t, "task_uuid": "u", "task_level": [1], "timestamp": 1.0}
+                    m = {"tag": t, "seq": seq, "b": seq, "message_type": "w%d" % t, "task_uuid": "u", "task_level": [1], "timestamp": 1.0}
                     logger.write(m, sers[t])
                     wrote[t].append(seq)
                     seq += 1
                 elif op == "write_invalid":
-                    m = {"tag": t, "message_type": "w%d" % t, "task_uuid": "u", "task_level": [1], "timestamp": 1.0, "seq": seq, "undeclared": object()}
+                    m = {"tag": t, "message_type": "w%d" % t, "task_uuid": "u", "task_level": [1], "timestamp": 1.0, "seq": seq, "b": seq, "undeclared": object()}
                     logger.write(m, sers[t])
                     wrote[t].append(seq)
                     seq += 1
@@ -157,6 +158,10 @@ def memory_run(plan_, nthreads, oplists, counters):
                 for d in r:
                     if "tag" in d and (not str(d["seq"]).startswith("t%d:" % d["tag"]) or d["message_type"] != "w%d" % d["tag"]):
                         problems.append("serialize() applied the wrong serializer: %r" % (d,))
+                        break
+                    if "tag" in d and str(d["seq"]).count("t%d:" % d["tag"]) != str(d.get("b")).count("t%d:" % d["tag"]):
+                        problems.append("serialize() returned a torn message (fields serialized a different number of times): %r" % (
+                            {k: d.get(k) for k in ("tag", "seq", "b")},))
                         break
             else:
                 flushed.extend(id(m) for m in r)
@@ -390,7 +395,8 @@ def run_case(spec):
     if spec["part"] == "filestress":
         run_filestress(spec, res)
         return res
-    n = sched.instrument([_output])
+    from eliot import _validation
+    n = sched.instrument([_output, _validation] if spec["part"] == "memory" else [_output])
     res["counters"]["code_objects_instrumented"] = n
     if spec["part"] == "memory":
         run_memory(spec, res)
